@@ -1055,7 +1055,9 @@ func genHandlerSeesFieldContext(c *Ctx) {
 			if fn.Parent() != nil {
 				continue
 			}
-			binds := len(an.CallsIn(fn, func(_ ssa.CallInstruction, ci an.CalleeInfo) bool { return ci.FullName() == pkgGraphql+".WithFieldContext" })) > 0
+			binds := len(an.CallsIn(fn, func(_ ssa.CallInstruction, ci an.CalleeInfo) bool {
+				return ci.FullName() == pkgGraphql+".WithFieldContext"
+			})) > 0
 			if !binds || !(strings.HasPrefix(fn.Name(), "fieldContext_") || isFieldFuncSig(fn)) {
 				continue
 			}
